@@ -29,6 +29,47 @@ chk("C11","vsched",
  "For 8 end points x 4-6 causes x 2 transports every schedule up to the bound is run on the real handlers; at quiescence (no thread can step) the backend connection and every hijacked client connection must have been closed by the gateway, no gateway goroutine may be left, the registry must be empty and the gauges restored.",
  "'Bounded time' is judged at quiescence of the closed system; connections are unbounded in-memory pipes; known finding: legacy client dropping only the OUT connection.")
 
+chk("C02","enum + seqx",
+ "exhaustive enumeration of a constructed finite cookie alphabet (all single-character and single-bit mutations, truncations, re-signings, claim matrices, serialisations x IdP behaviours) against the real checker and Processor; three-valued reference oracle computed with crypto/hmac",
+ "About 17 k cookie strings derived from a token minted by the real GeneratePAAToken are each presented to security.CheckPAACookie and (all non-mutation classes, every 7th mutation; thorough: all) through a TUNNEL_CREATE packet to the real Processor wired as main.go does, under five identity-provider behaviours; must-refuse strings must be refused with the cookie-denied status and end the tunnel, the minted token must be accepted.",
+ "Finite alphabet derived from one specimen per run; IdP is a scripted RoundTripper behind the real go-oidc provider; expiry cases keep 10 s from the leeway boundary.")
+chk("C03","enum",
+ "exhaustive enumeration of the product host-selection mode x token auth x host list x user x ~90 derived channel requests on the real Processor with the real policy callbacks; reference policy oracle with an independent UTF-16 decoder; all dials observed by the network shim",
+ "48 k cases: every combination of 6 modes, token auth off/on with each candidate token host, 4 host lists, 4 users and the requests derived from every list entry (exact, port and NUL variants, every prefix, extensions, other user's entry, IPv6 forms, surrogates, malformed length fields) is one execution of the real Processor; allowed requests must dial exactly the requested address, refused ones must get E_PROXY_RAP_ACCESSDENIED and no dial at all.",
+ "Cookie acceptance simulated by a table checker that sets the tunnel fields as CheckPAACookie does; ASCII list entries; case variants unspecified.")
+chk("C04","enum (handler level)",
+ "exhaustive enumeration of all pairs of issuing/presenting client-address forms x verification switch x transport through the real EnrichContext, GeneratePAAToken, CheckPAACookie and CheckSession; reference client-address function",
+ "All 31 x 31 pairs of address presentations (peer only, X-Forwarded-For chains, blanks, repeated header lines, IPv4/IPv6 spellings) x switch on/off x websocket/legacy: issuance through the real EnrichContext + GeneratePAAToken, use through EnrichContext + HandleGatewayProtocol; equal addresses must create the channel, a different IP must be denied without any dial.",
+ "IdP honours the token; host policy allows the host; spellings of the same IP are unspecified.")
+chk("C06","seqx + vsched",
+ "exhaustive enumeration of payload-size / packet-split / lying-length-field cases on the real handlers (sequential) plus stateless DFS over schedules of both relay directions (preemption bound 2/3); byte-exact stream oracle",
+ "Client data packets of 9 boundary sizes alone, in all ordered pairs (paced, burst, cut at 6 offsets) and triples, data packets whose length field lies, host writes of 5 sizes alone and in pairs, on both transports; plus every schedule (bound 2 quick, 3 thorough) of a tunnel carrying traffic in both directions at once. The host must receive exactly the declared payloads in order, the client exactly the host's bytes, every data packet well-formed.",
+ "Streams bounded to 3 x 65535 bytes per direction; position-dependent byte patterns.")
+chk("C07","vsched",
+ "stateless DFS over schedules (deviation bound 2 quick / 3 thorough) of two or three concurrent tunnels on the real handlers; differential non-interference oracle against each tunnel run alone",
+ "Two tunnels (thorough: also three) with distinct ids, users, token hosts, addresses and backends on ws+ws, ws+legacy, legacy+legacy, ending by close or drop: in every schedule up to the bound each tunnel's responses, client bytes, host bytes and dials must equal those of that tunnel run alone, and no tagged byte may cross; a legacy IN with a foreign id must not attach to an existing OUT.",
+ "2-3 tunnels; deviation bounding; same-id reuse is outside the property's quantifier.")
+chk("C10","enum/seqx + vsched",
+ "exhaustive enumeration of constructed hostile-input alphabets (packets x phases x transports; NTLM messages; KDC-proxy bodies; HTTP requests against the real binary) with panic / liveness / wedge oracle",
+ "(a) 2.9 k hostile packet inputs x 6 phases x 3 transports on the real Processor/handlers, each followed by a liveness probe from a second client; (c) ~1.9 k NTLM message shapes against the real verifier with and without a session; (d) ~120 KDC-proxy request shapes against the real handler; (b) HTTP-level inputs against the real rdpgw binary. No panic in any thread, other clients still served, no goroutine left, stated status codes for malformed KDC requests.",
+ "Each hostile input is one transport read; finite alphabets of boundary values; PAM stubbed.")
+chk("C14","seqx",
+ "exhaustive enumeration of all operation histories up to depth 3-4 over two NTLM sessions against the real verifier, messages built by an independent NTLMv2 implementation; three-valued reference oracle, no state merging",
+ "Every history up to depth 3 over a 39-operation alphabet and depth 2 over the full 255-operation alphabet (thorough: full alphabet depth 3, reduced depth 4) of negotiate / authenticate(claimed user, keying user+password, challenge) / garbage / clock operations on two sessions is run against a fresh real verifier; authentication without proof of the claimed user's configured password over the session's latest challenge is a violation, as is refusing the honest exchange.",
+ "User database of four users; independent NTLMv2 client; histories are not merged because the verifier's hidden state is the subject.")
+chk("C16","enum",
+ "exhaustive enumeration of redirect-switch combinations x idle timeouts and of request outcomes (canonical prefix + any alphabet symbol) on the real Processor and handlers; independent decoder and reference policy/outcome oracle",
+ "All 128 redirect-switch combinations x 19 boundary timeouts (+ every int16 for 2/8 combinations, + ws/legacy subset) and, for the 4 capability settings on 3 transports, every history 'canonical prefix of k packets + any of 31 symbols': every packet sent must be well-formed, typed as the response of the request it answers, carry status 0 iff the reference accepts, the MS-TSGU codes for capability / cookie / host denial, and the configured redirect word and timeout.",
+ "Idle timeouts within int32; table cookie checker.")
+chk("C17","enum",
+ "exhaustive enumeration of all 65536 client capability values x 4 server settings (and all 65536 version pairs) on the real Processor; reference negotiation oracle",
+ "For each of the 4 server settings every one of the 65536 client extended-auth values (thorough: x 3 version pairs) and all 65536 version byte pairs (thorough: for 6 client values) is one execution HANDSHAKE + TUNNEL_CREATE of the real Processor; success iff both empty or intersecting, advertised bits == enabled mechanisms, version echoed; failure => capability-mismatch status, tunnel ended, next packet unanswered.",
+ "Processor level, one packet per read; a sample repeated over websocket and legacy.")
+chk("C20","vsched",
+ "exhaustive enumeration of KDC behaviour combinations (1-3 KDCs, UDP and TCP) x realms x payload sizes on the real handler with deadlines firing at quiescence, plus stateless DFS over schedules of handler, reply readers and KDC threads for the 1-2 KDC scenarios",
+ "4.5 k scenarios: 1 KDC: 4 realms x 9 payload sizes x 3 UDP x 7 TCP behaviours; 2 and 3 KDCs: all behaviour combinations; each under the default schedule, the small ones under every schedule up to the bound. KDCs of the right realm receive exactly the embedded message, a complete reply from any connection yields 200 with exactly that reply wrapped, otherwise an error status; always an HTTP response, no goroutine left.",
+ "Behaviours are assigned in dial order because gokrb5 randomises KDC order; deadlines fire only at quiescence; explicit DER tags.")
+
 def build():
     checks=[]
     for pid in sorted(P):
